@@ -101,10 +101,25 @@ def round_to_dtype(x, dtype):
 
 
 class Obligation:
-    __slots__ = ("label", "cond", "sig")
+    __slots__ = ("label", "cond", "sig", "robust")
 
-    def __init__(self, label, cond, sig):
-        self.label, self.cond, self.sig = label, cond, sig
+    def __init__(self, label, cond, sig, robust=None):
+        self.label, self.cond, self.sig, self.robust = label, cond, sig, robust
+
+
+def _far(a, b):
+    """Boolean element: a and b differ by a margin a float replay cannot miss (None if not numeric).
+    Only a search hint for counterexamples that survive rounding; never part of a verdict."""
+    try:
+        if isinstance(a, (bool, T.Ind)) or isinstance(b, (bool, T.Ind)) or (T.is_z(a) and z3.is_bool(a)) or (T.is_z(b) and z3.is_bool(b)):
+            return None
+        if isinstance(a, T.XR) or isinstance(b, T.XR):
+            return None
+        d = T.abs_(T.sub(a, b))
+        r = T.tob(T.gt(d, Fraction(1, 64)))
+        return r
+    except Exception:
+        return None
 
 
 class Engine(TorchDispatchMode):
@@ -417,8 +432,17 @@ class Engine(TorchDispatchMode):
             b = self.read(expected) if isinstance(expected, torch.Tensor) else (expected if isinstance(expected, np.ndarray) else obj(expected))
             for pos in (np.ndindex(*a.shape) if a.shape else [()]):
                 self.oblige(label, T.tob(T.same(a[pos], b[pos])), elem=list(pos), **sig)
+                self.obligations[-1].robust = _far(a[pos], b[pos])
             return
         self.oblige(label, self.all_same(got, expected), **sig)
+        try:
+            a = self.read(got) if isinstance(got, torch.Tensor) else (got if isinstance(got, np.ndarray) else obj(got))
+            b = self.read(expected) if isinstance(expected, torch.Tensor) else (expected if isinstance(expected, np.ndarray) else obj(expected))
+            fars = [f for f in (_far(x, y) for x, y in zip(a.reshape(-1), b.reshape(-1))) if f is not None and f is not False]
+            if fars:
+                self.obligations[-1].robust = True if any(f is True for f in fars) else z3.Or(*fars)
+        except Exception:
+            pass
 
     # ---------------------------------------------------------------- dispatch
     def __torch_dispatch__(self, func, types, args=(), kwargs=None):
